@@ -17,14 +17,18 @@ STALE = "revoke-applies-stale-validation"
 
 #            leg A configurations      leg B (cfg, fee, pct)                                leg C (name, fee, pct, num, depth)
 TIERS = {
-    "quick": {"a": [("pay", 0, 10), ("route", 0, 10), ("issue", 0, 10)],
-              "b": [("pay", 0, 10), ("route", 0, 10), ("pay", 1, 100), ("issue", 0, 10)],
-              "c": [("sim2", 0, 10, 40, 40)]},
+    # ("vel" / "velx" / "sim2v": the node's policy has a finite payment velocity limit - the configuration names it -
+    #  so that approvals are DECLINED by add_invoice / add_keysend once the window is full)
+    "quick": {"a": [("pay", 0, 10), ("route", 0, 10), ("issue", 0, 10), ("vel", 0, 10)],
+              "b": [("pay", 0, 10), ("route", 0, 10), ("pay", 1, 100), ("issue", 0, 10), ("vel", 0, 10)],
+              "c": [("sim2", 0, 10, 40, 40), ("sim2v", 0, 10, 12, 40)]},
     "thorough": {"a": [("pay", 0, 10), ("route", 0, 10), ("loop", 0, 10), ("three", 0, 10), ("parts", 0, 10),
-                       ("pay", 1, 100), ("route", 1, 100), ("issuex", 0, 10)],
+                       ("pay", 1, 100), ("route", 1, 100), ("issuex", 0, 10), ("vel", 0, 10), ("velx", 0, 10)],
                  "b": [("pay", 0, 10), ("route", 0, 10), ("pay", 1, 100), ("pay", 1, 10), ("route", 1, 100),
-                       ("loop", 0, 10), ("three", 0, 10), ("parts", 0, 10), ("issue", 0, 10), ("issuex", 0, 10)],
-                 "c": [("sim2", 0, 10, 150, 50), ("sim3", 0, 10, 100, 50), ("sim2", 1, 100, 100, 50)]},
+                       ("loop", 0, 10), ("three", 0, 10), ("parts", 0, 10), ("issue", 0, 10), ("issuex", 0, 10),
+                       ("vel", 0, 10), ("velx", 0, 10)],
+                 "c": [("sim2", 0, 10, 150, 50), ("sim3", 0, 10, 100, 50), ("sim2", 1, 100, 100, 50),
+                       ("sim2v", 0, 10, 100, 50)]},
 }
 
 
@@ -42,32 +46,39 @@ def _assumed_known():
     return set(k for k in os.environ.get("PM_ASSUME_KNOWN", "").split(",") if k)
 
 
+def _vlim(item):
+    """the payment velocity limit of the policy a configuration / sequence item / replay names (0 = unlimited)"""
+    return item.get("vlim", 0)
+
+
 def _confirm(binpath, item, fee, pct, name):
     """re-execute a violating request sequence on a fresh real node and let TLC judge the recorded steps"""
     d = payments.wd("confirm-" + name)
     steps = os.path.join(d, "steps.ndjson")
     payments.run_sequences(binpath, [item], steps, fee, pct)
-    tr = payments.trace_tlc(steps, "ab", fee, pct, "", invs=["C06a", "C06b"])
+    tr = payments.trace_tlc(steps, "ab", fee, pct, "", invs=["C06a", "C06b"], vlim=_vlim(item))
     return tr["violated"], [json.loads(x) for x in open(steps)]
 
 
 def _violation(binpath, inv, cls, seq, ex_or_item, fee, pct, where):
     reqs = [s["req"] for s in seq]
-    item = {"chans": ex_or_item["chans"], "hashes": ex_or_item["hashes"], "reqs": reqs}
+    item = {"chans": ex_or_item["chans"], "hashes": ex_or_item["hashes"], "reqs": reqs, "vlim": _vlim(ex_or_item)}
     violated, steps = _confirm(binpath, item, fee, pct, "x")
     if not violated:
         raise vlib.ToolError("a violating history found by %s does not reproduce on a fresh node: %s" % (
             where, payments.describe(seq)))
-    seq2 = [{"req": s["req"], "ok": s["resp"]["ok"]} for s in steps]
+    seq2 = [{"req": s["req"], "ok": s["resp"]["ok"], "flag": s["resp"]["flag"]} for s in steps]
     key = payments.seq_key(inv, seq2, cls)
     what = "%s fails on the real node after: %s" % (violated[0], payments.describe(seq2))
     if cls == STALE:
         what = ("a revocation applies to the ledger a holder commitment that was validated against an older ledger: "
                 "more in flight than invoice + incoming + allowance after: %s" % payments.describe(seq2))
+    if item["vlim"]:
+        what += " [policy: payment velocity limit of %d unit(s) per window]" % item["vlim"]
     what += " [found by %s]" % where
     return {"key": key, "what": what,
             "replay": {"kind": "payments-seq", "chans": item["chans"], "hashes": item["hashes"], "fee": fee, "pct": pct,
-                       "requests": reqs, "found_by": where}}
+                       "vlim": item["vlim"], "requests": reqs, "found_by": where}}
 
 
 def run(pid, tier):
@@ -144,13 +155,16 @@ def run(pid, tier):
         seqs, sim = payments.simulate(name, fee, pct, num, depth, vlib.seed(), d)
         steps_file = os.path.join(d, "steps.ndjson")
         rs = payments.run_sequences(binpath, seqs, steps_file, fee, pct)
-        t1 = payments.trace_tlc(steps_file, "ab", fee, pct, "stale-revoke", invs=["C06a", "C06b"])
+        vlim = _vlim(seqs[0]) if seqs else 0
+        t1 = payments.trace_tlc(steps_file, "ab", fee, pct, "stale-revoke", invs=["C06a", "C06b"], vlim=vlim)
         trep = t1["report"]
         tag = "C_sim_%s_fee%d_pct%d" % (name, fee, pct)
         leg = {"behaviours": rs.get("sequences", 0), "steps": trep["steps"], "accepted_steps": trep["accepted"],
                "state_changing_steps": trep["changed"], "stale_revoke_steps": trep["stale_steps"],
                "steps_with_value_in_flight_for_an_approved_hash": trep["in_flight_steps"],
-               "spec_divergences": trep["ndivergent"], "broken": trep["broken"], "violated": list(t1["violated"])}
+               "spec_divergences": trep["ndivergent"], "broken": trep["broken"], "violated": list(t1["violated"]),
+               "payment_velocity_limit": vlim,
+               "approvals_declined": sum(1 for x in open(steps_file) if '"flag":0' in x.replace(" ", ""))}
         csteps += trep["steps"]
         tot_states += t1["distinct"]
         tot_trans += t1["states"]
@@ -159,7 +173,7 @@ def run(pid, tier):
         allsteps = None
         runs = [(t1, None)]
         if trep["stale_steps"] > 0:
-            t2 = payments.trace_tlc(steps_file, "a", fee, pct, "", invs=["C06aStale"])
+            t2 = payments.trace_tlc(steps_file, "a", fee, pct, "", invs=["C06aStale"], vlim=vlim)
             runs.append((t2, STALE))
             tot_states += t2["distinct"]
             tot_trans += t2["states"]
@@ -220,12 +234,16 @@ def run(pid, tier):
                        "path, real restarts included), checks every edge against Step and explores the product of that "
                        "graph with the ghost ledger of C06 (clauses a and b), (c) validates TLC-simulated behaviours over "
                        "the large alphabet (45 contents, 2 hashes, invoices/keysends/ticks/restarts) replayed on fresh real "
-                       "nodes.  The known class (a revocation applies a holder commitment validated against an older ledger) "
+                       "nodes.  Configurations vel / velx / sim2v run the node under a finite payment velocity limit "
+                       "(policy global_velocity_control), so that approvals are declined by the node itself (Ok(false)) and "
+                       "the hash of a declined / refused / expired approval is then offered in outgoing HTLCs.  The known class (a revocation applies a holder commitment validated against an older ledger) "
                        "is judged in a separate run so that it cannot hide other violations.",
     })
     vlib.write_evidence(pid, tier, "model_checking", cov,
                         ["amounts are multiples of one unit (10 000 sat); the routing-fee allowance is 0 (default policy: "
                          "222 sat < one unit) or one unit; max_feerate_percentage 10 or 100",
+                         "payment velocity: unlimited (default policy) or 1-2 units per hourly window; the clock moves only by "
+                         "the Tick request (3 days: past every prune time and the whole velocity window)",
                          "policy default enforce_balance = false (the excess_amount register is not exercised)",
                          "commitment numbers are abstracted: the harness presents the next number (and the counterparty "
                          "revocation before the next counterparty commitment); retries present the current one",
@@ -261,9 +279,9 @@ def _minimise(binpath, item, seq, fee, pct, cls):
     def failing(cands):
         d = payments.wd("min")
         steps = os.path.join(d, "steps.ndjson")
-        payments.run_sequences(binpath, [{"chans": item["chans"], "hashes": item["hashes"], "reqs": c} for c in cands],
-                               steps, fee, pct)
-        tr = payments.trace_tlc(steps, "ab", fee, pct, "", invs=[], judge="stale" if cls else "any")
+        payments.run_sequences(binpath, [{"chans": item["chans"], "hashes": item["hashes"], "reqs": c, "vlim": _vlim(item)}
+                                         for c in cands], steps, fee, pct)
+        tr = payments.trace_tlc(steps, "ab", fee, pct, "", invs=[], judge="stale" if cls else "any", vlim=_vlim(item))
         return set(tr["report"]["bad_seqs"])
 
     k = max(1, len(reqs) // 2)
@@ -292,9 +310,9 @@ def replay(pid, obj):
     binpath = vlib.build("payments")
     d = payments.wd("replay")
     steps = os.path.join(d, "steps.ndjson")
-    payments.run_sequences(binpath, [{"chans": rp["chans"], "hashes": rp["hashes"], "reqs": rp["requests"]}], steps,
-                           rp["fee"], rp["pct"])
-    tr = payments.trace_tlc(steps, "ab", rp["fee"], rp["pct"], "", invs=["C06a", "C06b"])
+    payments.run_sequences(binpath, [{"chans": rp["chans"], "hashes": rp["hashes"], "reqs": rp["requests"],
+                                      "vlim": _vlim(rp)}], steps, rp["fee"], rp["pct"])
+    tr = payments.trace_tlc(steps, "ab", rp["fee"], rp["pct"], "", invs=["C06a", "C06b"], vlim=_vlim(rp))
     for x in open(steps):
         e = json.loads(x)
         print("  %s -> %s" % (json.dumps(e["req"], sort_keys=True), json.dumps(e["resp"], sort_keys=True)))
